@@ -1,3 +1,3 @@
-CONSTANT Design = "intended"
+CONSTANTS Design = "intended" Lis = {0, 3} Plans = "cover"
 SPECIFICATION Spec
 INVARIANTS SearchClientsStrict
